@@ -117,7 +117,7 @@ _TOKEN = re.compile(rb"^[!#$%&'*+\-.^_`|~0-9A-Za-z]+$")
 
 def parse_block(head):
     """Independent parse of a request header block.  Returns dict(wf, why, method, target, version, fields[(name,value)])."""
-    out = {'wf': True, 'why': '', 'method': '', 'target': '', 'version': '', 'fields': []}
+    out = {'wf': True, 'why': '', 'method': '', 'target': '', 'version': '', 'fields': [], 'ctl': False}
 
     def bad(why):
         if out['wf']:
@@ -131,7 +131,7 @@ def parse_block(head):
         if b'\r' in ln or b'\n' in ln:
             bad('bare CR or LF')
         if any(c < 0x20 and c != 0x09 or c == 0x7f for c in ln):
-            bad('control character')
+            out['ctl'] = True      # noted, not part of C16 ("no line break or space smuggled in")
     if not lines or not lines[0]:
         bad('empty request line')
         return out
@@ -203,7 +203,7 @@ def project(addr, head, client_url, proxied):
             'cookies': cookies,
             'referer': ([referer_class(v) for n, v in f if n == 'referer'] or ['none'])[0],
             'nreferer': sum(1 for n, v in f if n == 'referer'),
-            'wf': blk['wf'], 'why': blk['why'], 'proxied': proxied}
+            'wf': blk['wf'], 'why': blk['why'], 'ctl': blk['ctl'], 'proxied': proxied}
 
 
 # ------------------------------------------------------------------ the client, wired as the Builder does
